@@ -38,6 +38,26 @@ static struct cds_lfht_alloc cds_lfht_default_alloc = { .calloc = h_calloc, .fre
 # include "rculfhash-mm-chunk.c"
 #elif defined(MM_MMAP)
 # include <sys/mman.h>
+/* mmap / munmap recorder for the mmap allocator: kind 1 reserve (PROT_NONE, not fixed), 2 populate (RW, MAP_FIXED), 3 discard (PROT_NONE, MAP_FIXED), 4 unmap */
+unsigned long G_mm_calls, G_mm_kind[8], G_mm_off[8], G_mm_len[8], G_mm_bad;
+static char G_mm_base[64];
+void *mmap(void *addr, size_t len, int prot, int flags, int fd, off_t off)
+{
+	unsigned long k = G_mm_calls & 3;
+	(void) fd; (void) off;
+	G_mm_calls++;
+	if (addr == 0) { if (prot != PROT_NONE || (flags & MAP_FIXED)) G_mm_bad = 1; G_mm_kind[k] = 1; G_mm_off[k] = 0; G_mm_len[k] = len; return G_mm_base; }
+	if (!(flags & MAP_FIXED)) G_mm_bad = 1;
+	G_mm_kind[k] = (prot == (PROT_READ | PROT_WRITE)) ? 2 : (prot == PROT_NONE ? 3 : 9);
+	G_mm_off[k] = (unsigned long) addr - (unsigned long) G_mm_base; G_mm_len[k] = len;	/* integer arithmetic: the reservation is far larger than the stand-in object */
+	return addr;
+}
+int munmap(void *addr, size_t len)
+{
+	unsigned long k = G_mm_calls & 3;
+	G_mm_calls++; G_mm_kind[k] = 4; G_mm_off[k] = (unsigned long) addr - (unsigned long) G_mm_base; G_mm_len[k] = len;
+	return 0;
+}
 # include "rculfhash-mm-mmap.c"
 #endif
 
@@ -181,5 +201,32 @@ void h_bucket_at(void)
 	ht->tbl_mmap = tbl;
 	VERIF_ASSERT(bucket_at(ht, index) == &tbl[index], "mmap allocator bucket_at: flat array");
 	VERIF_COVER(BIT(in_max_order) <= page_buckets); VERIF_COVER(BIT(in_max_order) > page_buckets);
+}
+/* alloc / free of one order are symmetric: what cds_lfht_free_bucket_table(order) gives back is exactly what
+ * cds_lfht_alloc_bucket_table(order) made accessible - never a part of the initial mapping that lower orders still use */
+unsigned long G_frees_small; void *G_freed_small;
+static void *h_calloc2(void *st, size_t n, size_t sz) { (void) st; (void) n; (void) sz; return G_mm_base; }
+static void h_free2(void *st, void *p) { (void) st; G_frees_small++; G_freed_small = p; }
+void h_alloc_free_mmap(void)
+{
+	struct cds_lfht ht; struct cds_lfht_alloc al; unsigned long o, mino, maxo, sz = sizeof(struct cds_lfht_node), na;
+	VIN(unsigned long, in_order); VIN(unsigned long, in_min_order); VIN(unsigned long, in_max_order);
+	o = in_order; mino = in_min_order; maxo = in_max_order;
+	VERIF_REQUIRE(mino <= maxo && maxo <= 40 && o <= maxo);
+	ht.min_nr_alloc_buckets = BIT(mino); ht.min_alloc_buckets_order = mino; ht.max_nr_buckets = BIT(maxo);
+	al.calloc = h_calloc2; al.free = h_free2; ht.alloc = &al; ht.tbl_mmap = (struct cds_lfht_node *) G_mm_base;
+	G_mm_calls = 0; G_mm_bad = 0; G_frees_small = 0;
+	cds_lfht_alloc_bucket_table(&ht, o);
+	na = G_mm_calls;
+	if (o == 0 && mino == maxo) VERIF_ASSERT(na == 0 && ht.tbl_mmap == (struct cds_lfht_node *) G_mm_base, "mmap allocator, small table: one plain allocation of max buckets");
+	else if (o == 0) VERIF_ASSERT(na == 2 && G_mm_kind[0] == 1 && G_mm_len[0] == BIT(maxo) * sz && G_mm_kind[1] == 2 && G_mm_off[1] == 0 && G_mm_len[1] == BIT(mino) * sz && !G_mm_bad, "mmap allocator, order 0: reserve max buckets (inaccessible), make the first min buckets accessible");
+	else if (o > mino) VERIF_ASSERT(na == 1 && G_mm_kind[0] == 2 && G_mm_off[0] == BIT(o - 1) * sz && G_mm_len[0] == BIT(o - 1) * sz && !G_mm_bad, "mmap allocator, order > min order: make exactly the upper half [2^(o-1), 2^o) accessible");
+	else VERIF_ASSERT(na == 0, "mmap allocator, 0 < order <= min order: already covered by the initial mapping, nothing to do");
+	cds_lfht_free_bucket_table(&ht, o);
+	if (o == 0 && mino == maxo) VERIF_ASSERT(G_mm_calls == na && G_frees_small == 1 && G_freed_small == (void *) G_mm_base, "mmap allocator, small table: the allocation is freed once");
+	else if (o == 0) VERIF_ASSERT(G_mm_calls == na + 1 && G_mm_kind[2] == 4 && G_mm_off[2] == 0 && G_mm_len[2] == BIT(maxo) * sz, "mmap allocator, order 0: the whole reservation is unmapped");
+	else if (o > mino) VERIF_ASSERT(G_mm_calls == na + 1 && G_mm_kind[1] == 3 && G_mm_off[1] == G_mm_off[0] && G_mm_len[1] == G_mm_len[0] && !G_mm_bad, "mmap allocator: freeing an order discards EXACTLY the range its allocation made accessible");
+	else VERIF_ASSERT(G_mm_calls == na && G_frees_small == 0, "mmap allocator, 0 < order <= min order: nothing is given back - those buckets live in the initial mapping, which only order 0 releases");
+	VERIF_COVER(o == 0 && mino < maxo); VERIF_COVER(o > mino); VERIF_COVER(o > 0 && o == mino); VERIF_COVER(o == 0 && mino == maxo);
 }
 #endif
